@@ -25,7 +25,7 @@ import (
 
 var ErrInjected = errors.New("injected API failure")
 
-// ListFault kinds: "" ok, "error", "error+list" (the error comes with an empty non-nil list object, as from client-go's typed clients), "canceled" (an error wrapping context.Canceled while the context is alive), "nonlist" (a Pod instead of a list), "nonobjects" (a list whose items are
+// ListFault kinds: "" ok, "norv" (no list resourceVersion), "dup-old" (every object is followed by its previous version), "error", "error+list" (the error comes with an empty non-nil list object, as from client-go's typed clients), "canceled" (an error wrapping context.Canceled while the context is alive), "nonlist" (a Pod instead of a list), "nonobjects" (a list whose items are
 // not API objects), "noaccessor" (object without list meta), "block" (returns only when ctx is cancelled).
 type ListFault struct {
 	Kind    string
@@ -208,7 +208,7 @@ func (s *Server) List(ctx context.Context, opts metav1.ListOptions) (runtime.Obj
 	defer vs.Atomic(s, func() { s.Inflight-- })
 	takeSnap := func() {
 		vs.Atomic(s, func() {
-			if f.Kind == "" {
+			if f.Kind == "" || f.Kind == "norv" || f.Kind == "dup-old" {
 				s.ListRVs = append(s.ListRVs, s.rv)
 			}
 			snap = &corev1.PodList{ListMeta: metav1.ListMeta{ResourceVersion: strconv.Itoa(s.rv)}}
@@ -249,6 +249,29 @@ func (s *Server) List(ctx context.Context, opts metav1.ListOptions) (runtime.Obj
 		takeSnap()
 	}
 	switch f.Kind {
+	case "norv":
+		// a list without a resourceVersion (aggregated / fake servers)
+		snap.ListMeta.ResourceVersion = ""
+		return snap, nil
+	case "dup-old":
+		// a list that names objects twice (paginated / aggregated): each object is followed by its previous version
+		var items []corev1.Pod
+		vs.Atomic(s, func() {
+			for _, it := range snap.Items {
+				items = append(items, it)
+				var prev *corev1.Pod
+				for _, e := range s.log {
+					if p := e.obj; e.typ != watch.Deleted && p.Namespace == it.Namespace && p.Name == it.Name && p.ResourceVersion != it.ResourceVersion {
+						prev = p
+					}
+				}
+				if prev != nil {
+					items = append(items, *prev)
+				}
+			}
+		})
+		snap.Items = items
+		return snap, nil
 	case "error":
 		return nil, ErrInjected
 	case "error+list":
